@@ -337,7 +337,9 @@ int EGLPNUM_TYPENAME_ILLread_lp_state_has_colon (
 	char *pp;
 
 	EGLPNUM_TYPENAME_ILLread_lp_state_skip_blanks (state, 0);
-	for (pp = state->p; *pp != '\n'; pp++)
+	/* the line ends at its terminator (a comment has been cut off there, and
+	 * the last line of a file need not contain a newline) */
+	for (pp = state->p; !END_LINE (pp); pp++)
 	{
 		if (*pp == ':')
 		{
